@@ -121,6 +121,24 @@ CHECKS = {
         "integral demands only; other magnitudes and longer histories are not covered.",
         "DESIGN.md section 4, C06",
     ),
+    "C07": (
+        "smallscope",
+        "bounded-exhaustive state grid plus explicit-state BFS over operation histories of the "
+        "real composites against sums recomputed from the children",
+        "Uniform and weighted composites (weight = supply / utilisation / allocation) over "
+        "every ordered tuple of 0-3 settable children from a 5x3x3 attribute grid (incl. 0, "
+        "1e-100, 1e100) with every demand write (thorough: every pair of writes), and BFS to "
+        "depth 3 (quick) / 4 (thorough) over histories of writes, child attribute changes, "
+        "children appended and removed. Oracle after every operation: right after a write the "
+        "children's demands sum to D (relative 1e-9), each share is D*w/sum(w) (equal shares "
+        "for uniform / zero total weight) within [0, D], D reads back exactly; always supply = "
+        "sum, utilisation and allocation within the children's range except the documented "
+        "fallbacks.",
+        "Trusted: children whose attributes do not react to a demand write; magnitudes chosen "
+        "so that no intermediate overflows (asserted); for the weighted composite only the "
+        "range, not the exact weighted mean, is required.",
+        "DESIGN.md section 4, C07",
+    ),
     "C08": (
         "smallscope",
         "bounded-exhaustive enumeration of pool states, parameters, rule / slave tables in "
@@ -233,6 +251,26 @@ CHECKS = {
         "routes is a harness error); `before` read as in SectionPlugin.load's documentation; "
         "cyclic constraint graphs are outside the property.",
         "DESIGN.md section 4, C14",
+    ),
+    "C15": (
+        "smallscope",
+        "explicit-state BFS over operation histories of the real FactoryPool, each adjustment "
+        "one iteration of the real run() under trio's virtual clock; seeded walks as a "
+        "separately reported supplement",
+        "52 scenarios (13 initial child sets x 4 factories of children with varying initial "
+        "demand) x all histories to depth 5 (quick) / 7 (thorough) of demand writes, child "
+        "supply / utilisation changes, children disabling themselves, dropped references to "
+        "released children and adjustment cycles (the real run() loop body, exactly once, under "
+        "MockClock); states deduplicated by the fields the implementation reads. Oracle after "
+        "every adjustment: grow covers the request and would not without the last child; shrink "
+        "releases only while the rest still covers the request and keeps no child that could "
+        "still be released; released children have demand 0 and never return; zero-demand "
+        "children are released; children come only from the factory; supply / utilisation / "
+        "allocation aggregate as documented. Random walks of length 30 beyond the depth bound "
+        "are reported separately and never carry the verdict alone.",
+        "Trusted: trio's MockClock; membership read through `children` and, fail-soft, the "
+        "private sets; the preference order among equal children is not in the oracle.",
+        "DESIGN.md section 4, C15",
     ),
     "C16": (
         "smallscope",
